@@ -291,14 +291,14 @@ def run(tier):
     for cfg in (("callers", 2), ("dwr", 1)):
         tasks.append((functools.partial(node_execute, cfg), node_check, node_bound))
         labels.append(("node", cfg, node_bound))
-    for (kind, cfg, b), r in zip(labels, scheddfs.explore_many(tasks)):
+    for (kind, cfg, b), r in zip(labels, (scheddfs.explore_many(tasks) if tier != "thorough" else scheddfs.explore_many_capped(tasks, 2, 900))):
         execs += r["executions"]
         outcomes += len(r["outcomes"])
         maxpts = max(maxpts, r["max_points"])
         for (key, detail), choices in r["violations"]:
             rep.add(Violation(key, f"cfg={cfg} bound={b} schedule={choices}: {detail}",
                               {"kind": kind, "cfg": list(cfg), "choices": choices}))
-        rep.sample({"cfg": cfg, "bound": b, "executions": r["executions"], "distinct_outcomes": len(r["outcomes"]),
+        rep.sample({"cfg": cfg, "bound": b, "bound_completed_without_cap": r.get("bound_completed", b), "capped": r.get("capped", False), "executions": r["executions"], "distinct_outcomes": len(r["outcomes"]),
                     "branching_points": r["max_points"]}, 40)
     n = sweep(rep)
     rep.cov.update({"states": execs, "transitions": execs, "traces_validated_against_impl": execs,
